@@ -637,6 +637,18 @@ def clause_f(c: Check):
         if not (isinstance(d, External) and d.dotted == 'builtins.sorted' and not r.keywords):
             ok = False
     c.expect(ok, 'C16-f', 'glob/sorted', 'glob matches are not returned sorted', g.loc())
+    # every match is examined by the path resolver: no match is filtered away first (a match that cannot be examined -
+    # a dangling link, a file that vanished - is an invalid suite, not a shorter list of cases)
+    for n in ast.walk(g.node):
+        if isinstance(n, (ast.ListComp, ast.GeneratorExp, ast.SetComp)):
+            for gen in n.generators:
+                c.expect(not gen.ifs, 'C16-f', 'glob/every-match-is-examined',
+                         'matches of the pattern are filtered by `%s` before they are examined: a reference that cannot be '
+                         'examined silently drops out of the suite' % ' and '.join(unparse(i) for i in gen.ifs),
+                         '%s:%d' % (g.module.relpath, n.lineno))
+        if isinstance(n, ast.Call) and isinstance(n.func, ast.Name) and n.func.id == 'filter':
+            c.bad('C16-f', 'glob/every-match-is-examined', 'matches of the pattern are filtered before they are examined',
+                  '%s:%d' % (g.module.relpath, n.lineno))
 
 
 # ---------------------------------------------------------------- g
